@@ -8,6 +8,7 @@ monitors that evaluate the property predicate on the real execution:
   C  c20_tags.py    audio.tags.convert_tags_to_track      <-> Untrusted/Tags.v
   D  c20_transcr.py the transcribed Python built-ins, each against the real one
   E  c20_download.py internal.http.download's chunk loop   <-> Untrusted/Download.v
+  F  c20_stream.py  StreamLibraryProvider.lookup / StreamPlaybackProvider.translate_uri <-> Untrusted/Stream.v
 """
 
 import logging
@@ -16,6 +17,7 @@ from common import vlib
 
 import c20_download
 import c20_parse
+import c20_stream
 import c20_tags
 import c20_transcr
 import c20_unwrap
@@ -68,7 +70,7 @@ def directed_search(chk):
                 if mf:
                     return mf
         for seed in range(chk.seed + 1, chk.seed + 4):
-            for mod in (c20_parse, c20_unwrap, c20_tags, c20_download):
+            for mod in (c20_parse, c20_unwrap, c20_tags, c20_download, c20_stream):
                 if cf["name"] not in mod.__name__:
                     continue
                 col = _Collector(seed)
@@ -130,3 +132,4 @@ def run(chk):
     c20_tags.run(chk)
     c20_transcr.run(chk)
     c20_download.run(chk)
+    c20_stream.run(chk)
